@@ -22,6 +22,7 @@ package patterns
 import (
 	"bytes"
 	"errors"
+	"math"
 	"strings"
 
 	"github.com/snapcore/snapd/logger"
@@ -128,11 +129,28 @@ func (n literal) Length() int {
 // seq is sequence of consecutive render nodes.
 type seq []renderNode
 
+// mulSaturated returns a*b for non-negative a and b, or math.MaxInt if the
+// product does not fit, so that counting variants never wraps around.
+func mulSaturated(a, b int) int {
+	if a > 0 && b > 0 && a > math.MaxInt/b {
+		return math.MaxInt
+	}
+	return a * b
+}
+
+// addSaturated is the same for a+b.
+func addSaturated(a, b int) int {
+	if b > 0 && a > math.MaxInt-b {
+		return math.MaxInt
+	}
+	return a + b
+}
+
 func (n seq) NumVariants() int {
 	num := 1
 
 	for i := range n {
-		num *= n[i].NumVariants()
+		num = mulSaturated(num, n[i].NumVariants())
 	}
 
 	return num
@@ -274,7 +292,7 @@ func (n alt) NumVariants() int {
 	num := 0
 
 	for i := range n {
-		num += n[i].NumVariants()
+		num = addSaturated(num, n[i].NumVariants())
 	}
 
 	return num
